@@ -22,8 +22,8 @@ CLAIMED = {
             "permutation, flat-index bridge (evalSimplex = walk over multi-indices, no out-of-bounds gather), agreement with "
             "hypercube on vertices and axis-parallel edges, tie-independence, range, and ALL-PAIRS monotonicity across ordering "
             "regions and cells (C02_T4_simplex_mono).",
-            "4/C02", "no explicit Lipschitz/continuity theorem (continuity follows from the closed-cell formulas); int32 cast range and "
-            "float behaviour are outside the model. "),
+            "4/C02", "Props/C02Accepted.lean restates the headline theorems for configurations accepted by the constructor model "
+            "(sizes non-empty and >= 2 follow from acceptance); int32 cast range and float behaviour are outside the model. "),
     "C03": ("Lean 4 theorems on a model of the premade_lib builder decision logic (buildSpec: config -> layer graph) + abstract "
             "composite of arbitrary layer functions with exactly the per-layer properties (composition of monotone maps, weighted "
             "averages) + invariant over histories of arbitrary updates each followed by the constraints, instantiated with "
@@ -61,8 +61,11 @@ CLAIMED = {
             "regenerated from /repo on every run (accept_*) and checked through the driver on ~2e5 more (thorough); accepted "
             "configurations have every index in range and every guard the projection models need (verifyLattice_cfgWF gives "
             "C01's CfgWF; PWL piece lengths > 0; ...); synonymous spellings canonicalise equally.",
-            "4/C16", "PARTIAL: `verify ok => projection/evaluation return ok and finite` is proved only through CfgWF feeding C01's "
-            "theorems; every accepted row is exercised on the real code; 15 finding buckets F-C16-a,e,f,h..s listed. "),
+            "4/C16", "`accepted => projection/evaluation total and finite` is proved per layer: acceptance yields every guard the "
+            "projection/evaluation models need (CfgWF for C01, sizes != [], scalings != 0, lengths > 0, buckets >= 1, integer indices, acyclic "
+            "categorical and linear pair sets via kahnAcyclic sound+complete) and the C02/C04/C06 *Accepted corollaries use them; not one "
+            "single statement. Float32 representability of accepted hyperparameters is outside the rational model (pinned finding F-C16-v); "
+            "remaining findings F-C16-f,h,m; 30 C16 defects fixed in /repo (known_findings.json `fixed`). "),
     "C04": ("Lean 4 theorems on an executable model of pwl_calibration_lib.project_all_constraints (Dykstra loop with last_change, "
             "finalisation, squeeze) + differential correspondence (PWLCalibrationConstraints, layer wiring, private stages) + oracle",
             "Theorems (Props/C04.lean), all kernels/sizes/positive spacings/iteration counts: result monotone exactly, within "
@@ -70,7 +73,8 @@ CLAIMED = {
             "imputed missing output in bounds; the finalisation establishes these from ANY input; clamps are hit exactly at BOTH "
             "ends for iterations >= 1 without convexity (clamp_hit: Dykstra far-end invariant + mirror argument for decreasing); "
             "iterations = 0 is known finding F-C04-b with a counter-witness theorem; the driver op is proved to compute projectAll.",
-            "4/C04", "clamp with convexity and convexity+bounds without monotonicity are the property's tolerated relaxations. "),
+            "4/C04", "clamp with convexity and convexity+bounds without monotonicity are the property's tolerated relaxations; "
+            "Props/C04Accepted.lean derives the positivity of the piece lengths from acceptance (constraint class and layer). "),
     "C05": ("Lean 4 theorems (induction over piece lists: sum of clipped ramps = convex combination of cumulative sums) on an "
             "executable model of compute_interpolation_weights / PWLCalibration.call / CategoricalCalibration.call + differential "
             "correspondence of the real Keras layers + np.interp oracle",
@@ -214,7 +218,8 @@ CLAIMED = {
             "vector and every ACYCLIC pair set: the modelled _topological_sort is proved to return a valid order for "
             "acyclic graphs with the code's fuel (Lemmas/TopoSort.lean: DFS invariants, topoSort_valid, "
             "topoSort_some_of_nonempty; *_acyclic corollaries).",
-            "4/C06", ""),
+            "4/C06", "Props/C06Accepted.lean: for configurations accepted by the constructor model the hypotheses `all scalings != 0`, "
+            "`Acyclic`, `dominance dimensions monotone` are theorems (after fixes 44c9e89, 2ef7ec2, 1f0b06a, 66006cc in /repo). "),
 }
 PENDING_REASON = "check not built yet in this round (design in DESIGN.md section 4); will be claimed when its model, theorems and correspondence exist"
 
